@@ -255,6 +255,9 @@ def _m3(res, prop, rule):
 
     outs = m3_resolver.run(prop, res.tier)
     m3_resolver.classify(outs, res, prop)
+    from . import traces
+
+    traces.classify_driver(res, prop)
     res.rule = rule
     res.distinct = sum(o["vectors"] for o in outs)
     res.exhaustive = True
@@ -444,6 +447,15 @@ def c17(res):
             res.violation({"property": "C17", "module": "resolver", "config": out["config"]["name"], "family": d["family"],
                            "why": "Resolver on a class with user-defined special methods (%s) differs from the plain class: path %r" % (d["family"], d["plain"].get("path")),
                            "par": d["par"], "ch": d["ch"], "query": d["query"], "plain": d["plain"], "adversarial": d["adversarial"]})
+    from . import m4_render
+
+    rout = m4_render.run_adversarial(res.tier)
+    res.add_tlc(rout["tlc"])
+    res.replayed += rout["n"]
+    for att in rout["attention"]:
+        res.violation({"property": "C17", "module": "render", "config": rout["config"]["name"], "family": att["family"],
+                       "why": "RenderTree on a class with user-defined special methods (%s) differs from the plain class: %s" % (att["family"], att["bad"][:1]),
+                       "par": att["par"], "ch": att["ch"], "query": att["query"], "observed": att["bad"]})
     res.rule = ("The specification is the identity-only semantics (no operator compares, hashes, orders, iterates or tests the truth of a node); C17 is decided by conformance: the vectors of M1 (mutators with "
                 "all fault plans; quick: the full n3x configuration and a seeded 1/6 of n4) and M2 (navigation, util helpers, iterators with options, Walker, find) are replayed on 16 adversarial class families "
                 "(always-equal, never-equal, falsy, zero-length, unhashable, container-like, always-true ordering, and a tripwire whose special methods raise) on both mixins and compared in lock-step with the plain class on the same base.")
